@@ -139,6 +139,10 @@ class StlAstParserVisitor(LtlAstParserVisitor, StlParserVisitor):
     def visitInterval(self, ctx):
         begin, begin_unit = self.visit(ctx.intervalTime(0))
         end, end_unit = self.visit(ctx.intervalTime(1))
+        b_unit = begin_unit or end_unit or self.unit
+        e_unit = end_unit or begin_unit or self.unit
+        if begin * self.U[b_unit] > end * self.U[e_unit]:
+            raise RTAMTException('The lower bound of the interval {} is greater than its upper bound'.format(ctx.getText()))
         interval = Interval(begin, end, begin_unit, end_unit)
         return interval
 
